@@ -574,3 +574,34 @@ unit({
     'text_subst': [(r'!\s*self->file\b(?!\.)', '!Ifs_ok(&self->file)')],
     'functions': [_fr('ReadImplementation'), _fr('ReadPartial'), _fr('Length'), _fr('Position'), _fr('Seek'), _fr('SeekForward'), _fr('SeekBackward')],
 })
+
+# --------------------------------------------------------------------------- U-VOLR (VolFile: reading side)
+def _vr(name, **kw):
+    d = {'file': VF, 'qual': 'VolFile::' + name, 'cls': 'VolFile', 'cname': 'VolFile_' + name}
+    d.update(kw); return d
+VOLR_TM = dict(VOL_TM, **{'Stream::FileReader': 'Fr', 'VolFile': 'VolFile', 'std::unique_ptr<Stream::BidirectionalReader>': 'SliceT', 'std::size_t': 'size_t'})
+unit({
+    'name': 'volr',
+    'includes': ['kf.h'],
+    'typemap': VOLR_TM,
+    'enums': [('src/Archive/CompressionType.h', 'CompressionType'), (VH, 'VolPadding')],
+    'structs': [STR_VIEW, TAG_T, VIEW('vec_str', 'str'), (VH, 'IndexEntry', {'cname': 'VolIndexEntry'}), (VH, 'SectionHeader', {'cname': 'VolSectionHeader'}),
+                VIEW('vec_VolIndexEntry', 'VolIndexEntry'), (VH, 'VolFile', {'bases': [('src/Archive/ArchiveFile.h', 'ArchiveFile')]})],
+    'globals': [{'file': VF, 'qual': 'Tag' + t_, 'ctype': 'Tag', 'cname': 'Tag' + t_} for t_ in ('VOL_', 'VOLH', 'VOLS', 'VOLI', 'VBLK')],
+    'scoped': {'CompressionType': 'CompressionType', 'VolPadding': 'VolPadding', 'Stream': ''},
+    'calls': {
+        'VerifyIndexInBounds': T('VolFile_VerifyIndexInBounds'),
+        'Seek': T('Fr_Seek'), 'Length': N('Fr_Length'), 'Position': N('Fr_Position'), 'SeekForward': T('Fr_SeekForward'),
+        'Read': {1: [(r'self->m_IndexEntries', T('Fr_Read', args=['vec'])), (r'.*', T('Fr_Read', args=['obj']))], 2: T('Fr_Read')},
+        'Slice': {2: T('Fr_Slice2'), 1: T('Fr_Slice1')},
+        'GetSectionHeader': T('VolFile_GetSectionHeader'),
+        'ReadTag': T('VolFile_ReadTag'), 'ReadStringTable': T('VolFile_ReadStringTable'), 'CountValidEntries': N('VolFile_CountValidEntries'),
+        'resize': {1: T('vec_VolIndexEntry_resize')},
+        'ExtractFileUncompressed': T('VolFile_ExtractFileUncompressed'), 'ExtractFileLzh': T('VolFile_ExtractFileLzh'),
+    },
+    'functions': [
+        _vr('GetName'), _vr('GetCompressionCode'), _vr('GetSize'), _vr('GetFileOffset'), _vr('GetFilenameOffset'),
+        _vr('OpenStream'), _vr('GetSectionHeader'), _vr('ExtractFile', nparams=2, autos={'indexEntry': 'VolIndexEntry'}),
+        _vr('ReadTag'), _vr('ReadVolHeader'), _vr('CountValidEntries'),
+    ],
+})
